@@ -92,6 +92,17 @@ def rich_programs() -> Iterator[Prog]:
         yield "time-period", f"time periods, representation {rep}", [("R", D("DS_1"), True), ("R2", D("DS_q"), True)], [T["DS_1"], T["DS_q"]], {}, rep
     for rep in ("vtl", "sdmx_reporting", "sdmx_gregorian", "natural"):
         yield "time-period", f"A/M/D periods, representation {rep}", [("R", D("DS_p"), True)], [T["DS_p"]], {}, rep
+    # result names that stress the file-name construction: dots are legal in VTL identifiers ([A-Za-z][A-Za-z0-9_.]*),
+    # SDMX-style names carry a version such as (1.0); two results differing only after the last dot must not share a file
+    two = [T["DS_2"]]
+    yield "result-names", "two results differing only after the last dot", \
+        [("DS.a", ("bin", "+", D("DS_2"), C(1)), True), ("DS.b", ("bin", "*", D("DS_2"), C(2)), True), ("DS_r", ("bin", "-", D("DS_2"), C(1)), True)], two, {}, "vtl"
+    yield "result-names", "dotted names, one of them temporary", \
+        [("DS.a", ("bin", "+", D("DS_2"), C(1)), True), ("DS.b", ("bin", "*", D("DS_2"), C(2)), False), ("DS.a.b", ("bin", "-", D("DS_2"), C(1)), True)], two, {}, "vtl"
+    yield "result-names", "name ending in a version (1.0)", \
+        [("BIS:DF(1.0)", ("bin", "+", D("DS_2"), C(1)), True), ("BIS:DF(1.1)", ("bin", "+", D("DS_2"), C(2)), False)], two, {}, "vtl"
+    yield "result-names", "names that look like file names", \
+        [("R.csv", ("bin", "+", D("DS_2"), C(1)), True), ("R.parquet", ("bin", "+", D("DS_2"), C(2)), True), ("R", ("bin", "+", D("DS_2"), C(3)), False)], two, {}, "vtl"
     sc = {"sc_i": 3, "sc_n": 2.5, "sc_s": 'q,"r"'}
     yield "scalars", "scalar results only", [("x", ("bin", "+", C(1), C(2)), True), ("y", ("bin", "||", C("a,b"), C('"c"')), True),
                                              ("z", C(N), True), ("w", ("bin", "*", C(1.5), C(2)), False), ("b", ("bin", "and", C(True), C(False)), True)], [T["DS_2"]], {}, "vtl"
